@@ -402,18 +402,21 @@ func c17Mirror(tier int) {
 	capacity := c17Amt("capacity")
 	fee := c17Amt("closeFee")
 	commitFee := c17Amt("commitFee")
+	// balances are kept in msat by lnd; the satoshi amounts are what
+	// ToSatoshis() (truncation) makes of them
 	aMsat := lnwire.MilliSatoshi(vU64("aBalanceMsat"))
 	bMsat := lnwire.MilliSatoshi(vU64("bBalanceMsat"))
-	capMsat := lnwire.MilliSatoshi(uint64(capacity) * 1000)
-	vAssume(aMsat <= capMsat && bMsat <= capMsat)
+	vAssume(aMsat <= 2_100_000_000_000_000_000 && bMsat <= 2_100_000_000_000_000_000)
+	aSat, bSat := aMsat.ToSatoshis(), bMsat.ToSatoshis()
 	anch := btcutil.Amount(0)
 	if ct&c17AnchorBit != 0 {
 		anch = c17AnchorsTotal
 	}
 	// commitment-level conservation (established by C01, assumed here): what
-	// the commitment distributes never exceeds the funding output
+	// the commitment distributes never exceeds the funding output. Stated in
+	// satoshi (implied by the msat-level invariant).
 	vAssume(commitFee <= capacity)
-	vAssume(uint64(aMsat)+uint64(bMsat)+uint64(commitFee+anch)*1000 <= uint64(capMsat))
+	vAssume(aSat+bSat+commitFee+anch <= capacity)
 	dustA, dustB := c17Amt("aDust"), c17Amt("bDust")
 	op := c17Outpoint()
 
@@ -467,8 +470,8 @@ func c17Mirror(tier int) {
 		"each side signs the transaction it returns, once")
 
 	// what each party is owed, from the property text
-	owedA := aMsat.ToSatoshis()
-	owedB := bMsat.ToSatoshis()
+	owedA := aSat
+	owedB := bSat
 	if aInit {
 		owedA = owedA + commitFee + anch
 	} else {
